@@ -332,3 +332,43 @@ Theorem C14_Normalize_GetB32 : forall n0 n1 n2 n3 n4 n5 n6 n7 n8 n9,
     l32 t = be_bytes 32 (val (n0, n1, n2, n3, n4, n5, n6, n7, n8, n9) mod p).
 Proof. exact Normalize_GetB32. Qed.
 Print Assumptions C14_Normalize_GetB32.
+
+(* ---- Field.Mul / Field.Sqr (Proofs/FieldMul.v): uint64 accumulators. For inputs of
+   magnitude <= 8 (what the group code feeds them) NO accumulator wraps (every wrap of
+   the regenerated code is discharged by interval arithmetic), the result stands for the
+   product modulo p — exactly: val r + p * k = val a * val b with k >= 0 — and its limbs
+   are reduced except limb 2, which may exceed 2^26 - 1 by at most 2^18 (mul_out):
+   magnitude <= 2, so it may be multiplied, added, negated or normalised again. *)
+From Sky Require Import Proofs.FieldMul.
+
+Theorem C14_Mul_correct : forall f0 f1 f2 f3 f4 f5 f6 f7 f8 f9 b0 b1 b2 b3 b4 b5 b6 b7 b8 b9,
+  mag 8 (f0, f1, f2, f3, f4, f5, f6, f7, f8, f9) -> mag 8 (b0, b1, b2, b3, b4, b5, b6, b7, b8, b9) ->
+  returns (fun r => mul_out r /\ exists k, 0 <= k /\
+             val r + p * k = val (f0, f1, f2, f3, f4, f5, f6, f7, f8, f9) * val (b0, b1, b2, b3, b4, b5, b6, b7, b8, b9))
+    (Field_Mul f0 f1 f2 f3 f4 f5 f6 f7 f8 f9 b0 b1 b2 b3 b4 b5 b6 b7 b8 b9).
+Proof. exact Mul_correct. Qed.
+Print Assumptions C14_Mul_correct.
+
+Theorem C14_Mul_mod_p : forall f0 f1 f2 f3 f4 f5 f6 f7 f8 f9 b0 b1 b2 b3 b4 b5 b6 b7 b8 b9,
+  mag 8 (f0, f1, f2, f3, f4, f5, f6, f7, f8, f9) -> mag 8 (b0, b1, b2, b3, b4, b5, b6, b7, b8, b9) ->
+  returns (fun r => mag 2 r /\ mul_out r /\
+             val r mod p = (val (f0, f1, f2, f3, f4, f5, f6, f7, f8, f9) * val (b0, b1, b2, b3, b4, b5, b6, b7, b8, b9)) mod p)
+    (Field_Mul f0 f1 f2 f3 f4 f5 f6 f7 f8 f9 b0 b1 b2 b3 b4 b5 b6 b7 b8 b9).
+Proof. exact Mul_mod_p. Qed.
+Print Assumptions C14_Mul_mod_p.
+
+Theorem C14_Sqr_correct : forall f0 f1 f2 f3 f4 f5 f6 f7 f8 f9,
+  mag 8 (f0, f1, f2, f3, f4, f5, f6, f7, f8, f9) ->
+  returns (fun r => mul_out r /\ exists k, 0 <= k /\
+             val r + p * k = val (f0, f1, f2, f3, f4, f5, f6, f7, f8, f9) * val (f0, f1, f2, f3, f4, f5, f6, f7, f8, f9))
+    (Field_Sqr f0 f1 f2 f3 f4 f5 f6 f7 f8 f9).
+Proof. exact Sqr_correct. Qed.
+Print Assumptions C14_Sqr_correct.
+
+Theorem C14_Sqr_mod_p : forall f0 f1 f2 f3 f4 f5 f6 f7 f8 f9,
+  mag 8 (f0, f1, f2, f3, f4, f5, f6, f7, f8, f9) ->
+  returns (fun r => mag 2 r /\ mul_out r /\
+             val r mod p = (val (f0, f1, f2, f3, f4, f5, f6, f7, f8, f9) * val (f0, f1, f2, f3, f4, f5, f6, f7, f8, f9)) mod p)
+    (Field_Sqr f0 f1 f2 f3 f4 f5 f6 f7 f8 f9).
+Proof. exact Sqr_mod_p. Qed.
+Print Assumptions C14_Sqr_mod_p.
